@@ -156,8 +156,13 @@ def spec_hash():
     for f in sorted(os.listdir(vlib.SPEC)):
         if f.endswith((".tla", ".cfg")):
             h.update(open(os.path.join(vlib.SPEC, f), "rb").read())
-    for f in ("gen.py", "norm.py", "vlib.py", "static_pipeline.py"):
-        h.update(open(os.path.join(vlib.HERE, f), "rb").read())
+    for f in sorted(os.listdir(vlib.HERE)):
+        if f.endswith(".py"):
+            h.update(open(os.path.join(vlib.HERE, f), "rb").read())
+    jsdir = os.path.join(vlib.HARNESS, "js")
+    for f in sorted(os.listdir(jsdir)):
+        if f.endswith(".js"):
+            h.update(open(os.path.join(jsdir, f), "rb").read())
     return h.hexdigest()[:16]
 
 
